@@ -30,7 +30,7 @@ class Harness:
         self.tier = "quick"
         self.kind = "complete"      # complete | bounded
         self.expect = "pass"        # pass | fail (negative control)
-        self.timeout = 600
+        self.timeout = min(600, int(os.environ.get("VERIF_TIMEOUT_CAP", "100000")))
         self.cbmc = ""
         self.bound = ""
         self.obligations = []
@@ -92,6 +92,15 @@ class Overlay:
                     k, v = kv[0], kv[1].strip('"')
                     if k == "timeout":
                         v = min(int(v), int(os.environ.get("VERIF_TIMEOUT_CAP", "100000")))
+                    setattr(pending, k, v)
+            elif s.startswith("// @grid "):
+                parts = s[len("// @grid "):].split()
+                pending = Harness(parts[0])
+                pending.kind = "native-grid"
+                for kv in re.findall(r'(\w+)=("[^"]*"|\S+)', " ".join(parts[1:])):
+                    k, v = kv[0], kv[1].strip('"')
+                    if k == "timeout":
+                        v = int(v)
                     setattr(pending, k, v)
             elif s.startswith("// @ob ") and pending is not None:
                 pending.obligations.append(s[len("// @ob "):].strip())
@@ -458,12 +467,78 @@ def resolve_unwindsets(ws, hs, cmd, logdir, gi):
             if not item.strip():
                 continue
             pat, n = item.rsplit("=", 1)
+            if pat.startswith("!"):
+                # literal CBMC loop id (loops of CBMC's built-in library such as memcmp.0 are not
+                # listed by --show-loops before linking)
+                entries[pat[1:]] = max(entries.get(pat[1:], 0), int(n))
+                continue
             hits = [lid for lid, desc in loops if re.search(pat, lid + " " + desc)]
             if not hits:
                 problems.append((h, f"lost anchor: unwindset pattern `{pat}` matches no loop of harness {h.name}"))
             for lid in hits:
                 entries[lid] = max(entries.get(lid, 0), int(n))
     return [f"{k}:{v}" for k, v in sorted(entries.items())], problems
+
+
+class NativeTree:
+    """All native (replay / grid) builds happen in one fixed directory under an exclusive lock: the
+    dev-dependency proc-macro crate bakes its manifest path in at compile time, so a shared build
+    cache is only valid for a fixed source path."""
+    def __init__(self, ws):
+        self.ws = ws
+        self.dir = os.path.join(SCRATCH_ROOT, "native")
+    def __enter__(self):
+        import fcntl
+        os.makedirs(self.dir, exist_ok=True)
+        self.lock = open(os.path.join(SCRATCH_ROOT, "native.lock"), "w")
+        fcntl.flock(self.lock, fcntl.LOCK_EX)
+        subprocess.check_call(["rsync", "-a", "--delete", self.ws + "/", os.path.join(self.dir, "ws") + "/"])
+        return os.path.join(self.dir, "ws")
+    def __exit__(self, *a):
+        import fcntl
+        fcntl.flock(self.lock, fcntl.LOCK_UN)
+        self.lock.close()
+
+
+def replay_env(h, inp):
+    env = dict(os.environ)
+    env["CARGO_NET_OFFLINE"] = "true"
+    env["CARGO_TARGET_DIR"] = os.path.join(CACHE, "target-replay")
+    env["RUSTFLAGS"] = "--cfg verif_replay -Awarnings"
+    env["VERIF_REPLAY_HARNESS"] = h.name
+    env["VERIF_REPLAY_INPUT"] = inp
+    env["RUST_BACKTRACE"] = "0"
+    return env
+
+
+def run_grids(ws, grids, logdir):
+    """Bounded stand-in: execute grid harness bodies natively on the real code (repository toolchain)."""
+    out = {}
+    empty = os.path.join(logdir, "empty-input.txt")
+    open(empty, "w").write("")
+    for h in grids:
+        cmd = ["cargo", "test", "--offline", "-p", "trustfall_core", "--lib", f"{h.module}::verif_replay_entry", "--", "--exact", "--nocapture", "--test-threads", "1"]
+        with NativeTree(ws) as nws:
+            rc, o, wall, to, _ = run_cmd(cmd, nws, replay_env(h, empty), max(h.timeout, 1500))
+        open(os.path.join(logdir, f"grid-{h.name}.log"), "w").write(o)
+        m = re.search(r"VERIF-GRID-DONE " + re.escape(h.name) + r" cases=(\d+)", o)
+        panics = re.findall(r"panicked at ([^\n]*):\n([^\n]*)", o)
+        cases = re.findall(r"VERIF-GRID-CASE: ([^\n]*)", o)
+        r = dict(checks=0, ok=0, covers_ok=0, failed=[], soft=[], cover_bad=[], solver_s=None, symex_s=None, duration_s=wall, cases=int(m.group(1)) if m else 0)
+        if "error: could not compile" in o or re.search(r"^error(\[E\d+\])?:", o, re.M) and "running 1 test" not in o:
+            r.update(status="undecided", reason="overlay/compile error (lost anchor?): " + " | ".join(re.findall(r"^error.*$", o, re.M)[:3]))
+        elif to:
+            r.update(status="undecided", reason="timeout (native grid)")
+        elif panics:
+            at, msg = panics[0]
+            r.update(status="refuted", reason=f"{msg} @ {at} on case {cases[-1] if cases else '?'}", case=cases[-1] if cases else None, tail=o[-2500:],
+                     failed=[dict(description=msg, category="native-assertion", function=h.full, location=dict(file=at))])
+        elif m and int(m.group(1)) > 0 and rc == 0:
+            r.update(status="pass", reason="")
+        else:
+            r.update(status="undecided", reason="grid did not complete: " + o[-300:])
+        out[h.name] = r
+    return out
 
 
 def concrete_playback(ws, h, logdir):
@@ -510,7 +585,8 @@ def native_replay(ws, h, vecs, logdir):
     env["VERIF_REPLAY_INPUT"] = inp
     env["RUST_BACKTRACE"] = "0"
     cmd = ["cargo", "test", "--offline", "-p", "trustfall_core", "--lib", f"{h.module}::verif_replay_entry", "--", "--exact", "--nocapture", "--test-threads", "1"]
-    rc, out, wall, to, killed = run_cmd(cmd, ws, env, 1500)
+    with NativeTree(ws) as nws:
+        rc, out, wall, to, killed = run_cmd(cmd, nws, env, 1500)
     open(os.path.join(logdir, f"replay-native-{h.name}.log"), "w").write(out)
     panics = re.findall(r"panicked at ([^\n]*):\n([^\n]*)", out)
     ran = "running 1 test" in out
@@ -641,6 +717,8 @@ def check_property(prop, tier, repo, only=None, keep=False, do_replay=True, writ
         pass
     if only:
         harnesses = [h for h in harnesses if h.name in only]
+    grids = [h for h in harnesses if h.kind == "native-grid"]
+    harnesses = [h for h in harnesses if h.kind != "native-grid"]
     findings = load_findings()
     violations, undecided, known = [], [], []
     results, anchors, verus = {}, [], []
@@ -654,6 +732,8 @@ def check_property(prop, tier, repo, only=None, keep=False, do_replay=True, writ
                 undecided.append(("pre", msg))
         if harnesses:
             results = run_kani(ws, harnesses, logdir)
+        if grids:
+            results.update(run_grids(ws, grids, logdir))
         if not only:
             verus = run_verus(repo, prop, logdir)
         # ---------------- verdicts
@@ -685,6 +765,23 @@ def check_property(prop, tier, repo, only=None, keep=False, do_replay=True, writ
                 else:
                     r["verdict"] = "VIOLATION"
                     violations.append((h.name, r, rp))
+        for h in grids:
+            r = results[h.name]
+            if r["status"] == "pass":
+                r["verdict"] = "grid-passed"
+            elif r["status"] == "undecided":
+                r["verdict"] = "undecided"
+                undecided.append((h.name, r["reason"]))
+            else:
+                f = finding_for(findings, prop, h, r["failed"])
+                rp = dict(path=write_replay_file(prop, h.name, dict(property=prop, harness=h.full, backend="native execution of the real code over an enumerated grid (bounded stand-in)",
+                          failed_obligations=r["failed"], failing_case=r.get("case"), obligation_text=h.obligations, reproduced=True, native_output=r.get("tail", ""))), reproduced=True)
+                if f is not None:
+                    r["verdict"] = "known-finding"
+                    known.append((h.name, f, rp))
+                else:
+                    r["verdict"] = "VIOLATION"
+                    violations.append((h.name, r, rp))
         for v in verus:
             if v["status"] == "refuted":
                 rp = write_replay_file(prop, "verus-" + v["file"], dict(obligation=v["reason"], backend="verus", verifier_output=v.get("output", ""), reproduced=False, note="Verus gives no counterexample"))
@@ -708,10 +805,11 @@ def check_property(prop, tier, repo, only=None, keep=False, do_replay=True, writ
     for name, why in undecided:
         log(f"UNDECIDED {prop}/{name}: {why}")
     if write_evidence and not only:
-        write_evidence_file(prop, tier, seed, harnesses, results, verus, anchors, meta, violations, known, undecided, wall)
+        write_evidence_file(prop, tier, seed, harnesses, results, verus, anchors, meta, violations, known, undecided, wall, grids)
     npass = sum(1 for h in harnesses if results.get(h.name, {}).get("verdict") == "discharged")
     log(f"[{prop}/{tier}] peak cbmc RSS {PEAK_RSS.get('kb', 0) / 1048576:.1f} GB")
     log(f"[{prop}/{tier}] harnesses={len(harnesses)} discharged={npass} controls={sum(1 for h in harnesses if results.get(h.name, {}).get('verdict') == 'control-ok')} "
+        f"grids={[(g.name, results.get(g.name, {}).get('cases')) for g in grids]} "
         f"known={len(known)} violations={len(violations)} undecided={len(undecided)} verus={[v['status'] for v in verus]} wall={wall:.0f}s")
     if violations:
         return 1
@@ -762,8 +860,13 @@ def make_replay(ws, prop, h, r, logdir):
     return dict(path=path, reproduced=payload["reproduced"])
 
 
-def write_evidence_file(prop, tier, seed, harnesses, results, verus, anchors, meta, violations, known, undecided, wall):
+def write_evidence_file(prop, tier, seed, harnesses, results, verus, anchors, meta, violations, known, undecided, wall, grids=()):
     complete, bounded, controls, samples = [], [], [], []
+    native = []
+    for h in grids:
+        r = results.get(h.name, {})
+        native.append(dict(harness=h.full, backend="native execution on the real code (repository toolchain), enumerated grid - bounded stand-in, NOT a proof", bound=h.bound,
+                           cases_executed=r.get("cases", 0), verdict=r.get("verdict"), wall_s=r.get("duration_s"), obligation=h.obligations, reason=r.get("reason", "")))
     obligations = discharged = 0
     solver = 0.0
     for h in harnesses:
@@ -775,6 +878,8 @@ def write_evidence_file(prop, tier, seed, harnesses, results, verus, anchors, me
         solver += (r.get("solver_s") or 0) + (r.get("symex_s") or 0)
         if h.expect == "fail":
             controls.append(entry)
+        elif r.get("verdict") == "known-finding":
+            bounded.append(dict(entry, note="refuted on the unchanged tree: listed known finding; not counted"))
         elif h.kind == "complete":
             complete.append(entry)
             obligations += r.get("checks", 0)
@@ -786,7 +891,7 @@ def write_evidence_file(prop, tier, seed, harnesses, results, verus, anchors, me
                              checks=v["verified"] + v["errors"], checks_ok=v["verified"], solver_s=v.get("smt_s"), wall_s=v.get("wall_s"), extraction=v.get("extraction"), reason=v.get("reason", "")))
         obligations += v["verified"] + v["errors"]
         discharged += v["verified"]
-    for e in (complete + bounded)[:40]:
+    for e in (complete + bounded + native)[:60]:
         for o in e.get("obligation") or []:
             samples.append(f"{e['harness']}: {o}")
     if not samples:
@@ -797,7 +902,7 @@ def write_evidence_file(prop, tier, seed, harnesses, results, verus, anchors, me
         checker_cmd=f"./check {prop} --tier {tier}  (cargo kani -p trustfall_core -Z function-contracts -Z stubbing --exact --harness <each>; verus <extracted>.rs)",
         trusted_base=["rustc (Kani's pinned nightly) MIR", "kani-compiler 0.68 MIR->GOTO", "CBMC 6.11 + cadical", "Kani's std models"] + (["Verus 0.2026.09.13 + Z3 + vstd"] if verus else []),
         functions_under_contract=anchors,
-        complete=complete, bounded=bounded, negative_controls=controls,
+        complete=complete, bounded=bounded, bounded_native_grids=native, negative_controls=controls,
         samples=samples[:60],
         explanation=meta.get("explanation", "") + " `obligations`/`discharged` count CBMC properties (assertions, panics, overflow, pointer and arithmetic checks) and Verus functions of the *complete* (loop-free full-domain or type-bounded) harnesses only; harnesses under `bounded` carry their bound and are not counted as proved.",
         solver_time_s=round(solver, 2),
@@ -861,6 +966,10 @@ def setup(repo):
     try:
         rc, out, wall, to, _ = run_cmd(["cargo", "kani", "-p", "trustfall_core", "--only-codegen"], ws, kani_env(), 1800)
         log(f"setup: kani codegen rc={rc} {wall:.0f}s")
+        h = Harness("none")
+        with NativeTree(ws) as nws:
+            rc, out, wall, to, _ = run_cmd(["cargo", "test", "--offline", "-p", "trustfall_core", "--lib", "--no-run"], nws, replay_env(h, "/dev/null"), 1800)
+        log(f"setup: native test build rc={rc} {wall:.0f}s")
     finally:
         shutil.rmtree(root, ignore_errors=True)
     return 0
